@@ -78,14 +78,15 @@ example : podOrdinals 4 [3, 1] = (podOrdinals 4 [1]).erase 3 ++ [5] := by decide
 /-- **slot_out_only**: one pod per ordinal of the desired set except `k`, all healthy, at the update revision, identity and
     storage in order; a pod created at `k` would be at the update revision (no roll-out pending below a partition). The
     reconcile issues exactly one action — the creation of pod `k` — under either policy, every strategy and every fault plan,
-    and ends ok unless that very create is made to fail. No pod is deleted, updated or created anywhere else. -/
+    and ends ok unless that very create is made to fail — and then it reports the error (C09). No pod is deleted, updated or created anywhere else. -/
 theorem slot_out_only (v : SetView) (cur upd : String) (pods : List Pod) (f : Faults) (r k : Int)
     (hr : v.replicas = some r) (hk : k ∈ desired r v.slots) (hdel : v.deleting = false)
     (hperm : (pods.map Pod.ord).Perm ((desired r v.slots).erase k))
     (hgood : ∀ p ∈ pods, p.healthy = true ∧ p.rev = upd ∧ p.idOk = true ∧ p.stOk = true)
     (hrev : newPodRev v cur upd k = upd) :
     (updateStatefulSet v cur upd pods f).1.acts = [.create k upd] ∧
-    (f.hit 0 k = false → (updateStatefulSet v cur upd pods f).2 = .ok) :=
+    (f.hit 0 k = false → (updateStatefulSet v cur upd pods f).2 = .ok) ∧
+    (f.hit 0 k = true → (updateStatefulSet v cur upd pods f).2 = .err) :=
   slot_out_only_gen v cur upd pods f r k hr hk hdel hperm hgood hrev
 
 /-- the same, phrased as the user's edit: the pods are exactly those of `desired r S` (a converged set), the user un-lists
@@ -97,7 +98,8 @@ theorem unlist_edit_creates_only_k (v : SetView) (cur upd : String) (pods : List
     (hgood : ∀ p ∈ pods, p.healthy = true ∧ p.rev = upd ∧ p.idOk = true ∧ p.stOk = true)
     (hrev : newPodRev v cur upd k = upd) :
     (updateStatefulSet v cur upd pods f).1.acts = [.create k upd] ∧
-    (f.hit 0 k = false → (updateStatefulSet v cur upd pods f).2 = .ok) := by
+    (f.hit 0 k = false → (updateStatefulSet v cur upd pods f).2 = .ok) ∧
+    (f.hit 0 k = true → (updateStatefulSet v cur upd pods f).2 = .err) := by
   refine slot_out_only_gen v cur upd pods f (r + 1) k hr hk hdel ?_ hgood hrev
   rw [hs] at hk ⊢
   rw [desired_unlist_erase r S k h0 hkS hk]
@@ -112,7 +114,8 @@ theorem scale_out_edit_creates_only_next (v : SetView) (cur upd : String) (pods 
     (hrev : ∀ n, newPodRev v cur upd n = upd) :
     ∃ n, desired (r + 1) v.slots = desired r v.slots ++ [n] ∧
       (updateStatefulSet v cur upd pods f).1.acts = [.create n upd] ∧
-      (f.hit 0 n = false → (updateStatefulSet v cur upd pods f).2 = .ok) := by
+      (f.hit 0 n = false → (updateStatefulSet v cur upd pods f).2 = .ok) ∧
+      (f.hit 0 n = true → (updateStatefulSet v cur upd pods f).2 = .err) := by
   obtain ⟨n, hn, -, -, hlt⟩ := desired_succ r v.slots h0
   have hnot : n ∉ desired r v.slots := fun h => by have := hlt n h; omega
   refine ⟨n, hn, slot_out_only_gen v cur upd pods f (r + 1) n hr (by rw [hn]; simp) hdel ?_ hgood (hrev n)⟩
